@@ -28,6 +28,14 @@ S, V, B, I = "S", "V", "B", "I"
 # reductions over axis -1 / -2 (one value per row / per column), M a finite matrix
 EM, EMC, EMR, M = "EM", "EMC", "EMR", "M"
 MAT_TYPES = {EM: "List (List (Jnp.Ext α))", EMC: "List (Jnp.Ext α)", EMR: "List (Jnp.Ext α)", M: "List (List α)"}
+# n-d arrays (`Model/Arr.lean`, `Model/ArrJnp.lean`): A an array `Arr κ` (element type κ; the log-det scalar stays α),
+# SH a shape / tuple of non-negative ints, OSH a shape or None, IDX a resolved `Partial` index, NAT a non-negative int
+A, SH, OSH, IDX, NAT = "A", "SH", "OSH", "IDX", "Nat"
+ARR_TYPES = {A: "Arr κ", SH: "List Nat", OSH: "Option (List Nat)", IDX: "Arr.Idx"}
+# applied Lean types of records declared by typing sheets: record name -> type text (sheets register theirs at import)
+RECORD_TYPES: dict[str, str] = {}
+# records whose four public methods are called as on a child bijection
+BIJ_RECORDS = {"Bij"}
 
 
 def T(*ts):
@@ -51,6 +59,12 @@ def lean_type(t) -> str:
         return "Nat"
     if isinstance(t, tuple) and t[0] == "T":
         return "(" + " × ".join(lean_type(x) for x in t[1:]) + ")"
+    if isinstance(t, tuple) and t[0] == "R" and t[1] in RECORD_TYPES:
+        return RECORD_TYPES[t[1]]
+    if isinstance(t, tuple) and t[0] == "G":  # generator (consumed exactly once, checked) -> list
+        return f"List ({lean_type(t[1])})"
+    if t in ARR_TYPES:
+        return ARR_TYPES[t]
     if isinstance(t, tuple) and t[0] == "R":
         return f"{t[1]} X C α" if t[1] in ("Bij", "Chain", "Invert") else (f"{'Distn' if t[1] == 'Dist' else t[1]} X C K α" if t[1] in ("Dist", "Transformed", "DistCore") else None) or (f"{t[1]} C α" if t[1] in ("AdditiveCondition",) else f"{t[1]} α")
     if isinstance(t, tuple) and t[0] == "F":
@@ -91,6 +105,7 @@ class Target:
     calls: dict = dataclasses.field(default_factory=dict)  # python callee text -> (lean name, ret type)
     consts: dict = dataclasses.field(default_factory=dict)  # python names bound to lean exprs
     lets_types: dict = dataclasses.field(default_factory=dict)
+    tuple_types: dict = dataclasses.field(default_factory=dict)  # name -> element types of a tuple literal assigned to it (types its numerals)
     doc: str = ""
     part: tuple | None = None  # ("before"|"after", "<call text marker>"): translate only that slice of the body
     ret_expr: str | None = None  # python expression returned by a sliced body
@@ -99,6 +114,7 @@ class Target:
     static: dict = dataclasses.field(default_factory=dict)  # python flag argument -> bool: `if flag:` is inlined (must equal the signature default)
     sub: tuple | None = None  # ("lambda", "<assign target text>") | ("expr", "<expression text>"): translate that sub-expression of the function
     config: dict = dataclasses.field(default_factory=dict)  # static string field of `self` -> its value in THIS specialisation (checked against the class annotation and `__init__`); `if self.f == "v":` is decided at translation time
+    guard_calls: tuple = ()  # statement-level calls that only raise or return None (argument checks): recorded in the sheet, not translated
     config_fns: tuple = ()  # callable fields of `self` that `__init__` binds in the same block as the `config` value (e.g. activation_fn); `self.f(x)` is translated through that binding
 
 
@@ -158,7 +174,7 @@ def _flip(tr, a, kw):
 
 def _len(tr, a, kw):
     (x, t), = a
-    if t == V or (isinstance(t, tuple) and t[0] == "L"):
+    if t == V or t == SH or (isinstance(t, tuple) and t[0] == "L"):
         return f"((List.length {x} : Nat) : Int)", I
     raise Untranslatable("len of " + str(t))
 
@@ -179,6 +195,14 @@ def _zero(tr, a, kw):
 def _float(tr, a, kw):
     (x, t), = a
     return x, t
+
+
+def _full(tr, a, kw):
+    """jnp.full(n, v) with a static length n (a `Nat` argument) and a scalar fill value"""
+    if len(a) != 2 or kw or a[0][1] != "Nat" or a[1][1] not in (S, "num"):
+        raise Untranslatable("jnp.full: expected (static length, scalar)")
+    v = a[1][0] if a[1][1] == S else f"({a[1][0]} : α)"
+    return f"(List.replicate {a[0][0]} {v})", V
 def _vec1(lean):
     def h(tr, a, kw):
         if len(a) != 1 or a[0][1] != V or kw:
@@ -265,6 +289,7 @@ LIB = {
     "math.tanh": _unary_S("Transc.tanh"),
     "jnp.sum": _sum,
     "jnp.zeros": _zero,
+    "jnp.full": _full,
     "jnp.array": _float,
     "jnp.asarray": _float,
     "float": _float,
@@ -328,6 +353,111 @@ MAT_LIB = {
 }
 
 
+# ---- n-d array primitives (`Model/ArrJnp.lean`): handlers get the Call node
+def _is_list_of(t, elem=None):
+    return isinstance(t, tuple) and t[0] in ("L", "G") and (elem is None or t[1] == elem)
+
+
+def _arr_axis(tr, n, npos):
+    """the `axis` argument: positional number `npos` or the keyword `axis`; nothing else may be passed"""
+    kws = {k.arg: k.value for k in n.keywords}
+    if len(n.args) == npos + 1 and not kws:
+        ax = n.args[npos]
+    elif len(n.args) == npos and set(kws) == {"axis"}:
+        ax = kws["axis"]
+    else:
+        raise Untranslatable(f"{ast.unparse(n.func)}: expected {npos} positional argument(s) and an axis")
+    c, t = tr._e(ax)
+    if t == "num":
+        return f"({c} : Int)"  # a literal axis
+    if t != I:
+        raise Untranslatable(f"{ast.unparse(n.func)}: axis of type {t}")
+    return c
+
+
+def _arr_array_split(tr, n):
+    ax = _arr_axis(tr, n, 2)
+    (x, tx), (ix, ti) = tr._e(n.args[0]), tr._e(n.args[1])
+    if tx != A or ti != SH:
+        raise Untranslatable(f"jnp.array_split({tx}, {ti})")
+    return f"(ArrJnp.arraySplit {x} {ix} {ax})", ("L", A)
+
+
+def _arr_split(tr, n):
+    ax = _arr_axis(tr, n, 2)
+    (x, tx), (k, tk) = tr._e(n.args[0]), tr._e(n.args[1])
+    if tx != A or tk != I:
+        raise Untranslatable(f"jnp.split({tx}, {tk}): only an integer number of sections")
+    return f"(ArrJnp.split {x} {k} {ax})", ("L", A)
+
+
+def _arr_join(lean):
+    def h(tr, n):
+        ax = _arr_axis(tr, n, 1)
+        ps, tp = tr._e(n.args[0])
+        if tp != ("L", A):
+            raise Untranslatable(f"{lean} of {tp}")
+        return f"({lean} {ps} {ax})", A
+    return h
+
+
+def _arr_sum(tr, n):
+    """Python's builtin `sum` of a list of scalars / a list or generator of non-negative ints"""
+    if len(n.args) != 1 or n.keywords:
+        raise Untranslatable("sum form")
+    c, t = tr._e(n.args[0], gen_ok=True)
+    if _is_list_of(t, S):
+        return f"(ArrJnp.pySum {c})", S
+    if _is_list_of(t, NAT):
+        return f"(ArrJnp.natSum {c})", NAT
+    raise Untranslatable(f"sum of {t}")
+
+
+def _arr_tuple(tr, n):
+    if len(n.args) != 1 or n.keywords:
+        raise Untranslatable("tuple form")
+    c, t = tr._e(n.args[0], gen_ok=True)
+    if _is_list_of(t, NAT):
+        return c, SH
+    raise Untranslatable(f"tuple of {t}")
+
+
+def _arr_accumulate(tr, n):
+    if len(n.args) != 1 or n.keywords:
+        raise Untranslatable("accumulate form")
+    c, t = tr._e(n.args[0])
+    if t == ("L", NAT) or t == SH:
+        return f"(ArrJnp.accumulate {c})", ("L", NAT)
+    raise Untranslatable(f"accumulate of {t}")
+
+
+def _arr_zip_star(tr, n):
+    """`zip(*pairs, strict=True)` (to be unpacked into two names)"""
+    if not (len(n.args) == 1 and isinstance(n.args[0], ast.Starred) and _strict_true(n)):
+        raise Untranslatable("zip form: only zip(*pairs, strict=True) outside a comprehension")
+    c, t = tr._e(n.args[0].value)
+    if not (_is_list_of(t) and t[0] == "L" and isinstance(t[1], tuple) and t[1][0] == "T" and len(t[1]) == 3):
+        raise Untranslatable(f"zip(*{t})")
+    return f"(ArrJnp.unzipStar {c})", T(("L", t[1][1]), ("L", t[1][2]))
+
+
+def _strict_true(n: ast.Call):
+    return (len(n.keywords) == 1 and n.keywords[0].arg == "strict" and isinstance(n.keywords[0].value, ast.Constant)
+            and n.keywords[0].value.value is True)
+
+
+ARR_LIB = {
+    "jnp.array_split": _arr_array_split,
+    "jnp.split": _arr_split,
+    "jnp.concatenate": _arr_join("ArrJnp.concatenate"),
+    "jnp.stack": _arr_join("ArrJnp.stack"),
+    "sum": _arr_sum,
+    "tuple": _arr_tuple,
+    "accumulate": _arr_accumulate,
+    "zip": _arr_zip_star,
+}
+
+
 class Tr:
     def __init__(self, tgt: Target, structs: dict):
         self.tgt = tgt
@@ -370,9 +500,13 @@ class Tr:
             return f"({c} : α)", S
         return c, t
 
-    def _e(self, n):
+    def _e(self, n, gen_ok=False):
         if isinstance(n, ast.Constant):
             return self.const(n.value)
+        if isinstance(n, (ast.ListComp, ast.GeneratorExp)):
+            if isinstance(n, ast.GeneratorExp) and not gen_ok:
+                raise Untranslatable("generator expression outside sum(...) / tuple(...) / a declared generator return")
+            return self.comprehension(n)
         if isinstance(n, ast.Name):
             if n.id in self.tgt.consts:
                 return self.tgt.consts[n.id]
@@ -423,6 +557,13 @@ class Tr:
         if isinstance(n, ast.Compare):
             if len(n.ops) != 1:
                 raise Untranslatable("chained comparison")
+            if isinstance(n.ops[0], (ast.Is, ast.IsNot)):
+                if not (isinstance(n.comparators[0], ast.Constant) and n.comparators[0].value is None):
+                    raise Untranslatable("`is` other than against None")
+                a, ta = self._e(n.left)
+                if ta != OSH:
+                    raise Untranslatable(f"`is None` on {ta}")
+                return (f"(Option.isNone {a})" if isinstance(n.ops[0], ast.Is) else f"(Option.isSome {a})"), B
             a, ta = self._e(n.left)
             b, tb = self._e(n.comparators[0])
             if ta == "num" and tb == "num":
@@ -446,7 +587,16 @@ class Tr:
                 raise Untranslatable(ast.dump(n))
             return f"(decide ({a} {sym} {b}))", B
         if isinstance(n, ast.Subscript):
+            if (isinstance(n.value, ast.Call) and ast.unparse(n.value.func) == "range" and len(n.value.args) == 1
+                    and not n.value.keywords):
+                # `range(n)[i]`: Python's index normalisation of a possibly negative `i`
+                (k, tk), (i, ti) = self._e(n.value.args[0]), self._e(n.slice)
+                if tk != I or ti != I:
+                    raise Untranslatable(f"range({tk})[{ti}]")
+                return f"(ArrJnp.rangeGet {k} {i})", NAT
             base, bt = self._e(n.value)
+            if bt in (A, SH) or bt == ("L", SH):
+                return self.arr_subscript(n, base, bt)
             if isinstance(bt, tuple) and bt[0] == "T":
                 if isinstance(n.slice, ast.Constant) and isinstance(n.slice.value, int):
                     i = n.slice.value
@@ -481,14 +631,100 @@ class Tr:
         if isinstance(n, ast.Call):
             return self.call(n)
         if isinstance(n, ast.IfExp):
+            # `v if v is not None else d` on an optional shape
+            t = n.test
+            if (isinstance(t, ast.Compare) and len(t.ops) == 1 and isinstance(t.ops[0], ast.IsNot) and isinstance(t.comparators[0], ast.Constant)
+                    and t.comparators[0].value is None and isinstance(t.left, ast.Name) and isinstance(n.body, ast.Name) and n.body.id == t.left.id):
+                v, tv = self._e(n.body)
+                d, td = self._e(n.orelse)
+                if tv == OSH and td == SH:
+                    return f"(match {v} with | some v => v | none => {d})", SH
+                if tv == OSH and td == OSH:
+                    return f"(match {v} with | some v => some v | none => {d})", OSH
             raise Untranslatable("conditional expression")
         raise Untranslatable(ast.dump(n))
+
+    def comprehension(self, n):
+        """`[e for v in xs]` -> List.map;  `[e for a, b in zip(as, bs, strict=True)]` -> zipWithStrict.  No filters, one generator."""
+        if len(n.generators) != 1 or n.generators[0].ifs or n.generators[0].is_async:
+            raise Untranslatable("comprehension form")
+        g = n.generators[0]
+        saved = dict(self.env)
+        try:
+            if isinstance(g.iter, ast.Call) and ast.unparse(g.iter.func) == "zip":
+                z = g.iter
+                if not (len(z.args) == 2 and _strict_true(z) and not any(isinstance(a, ast.Starred) for a in z.args)):
+                    raise Untranslatable("zip in a comprehension: only zip(a, b, strict=True)")
+                if not (isinstance(g.target, ast.Tuple) and len(g.target.elts) == 2 and all(isinstance(e, ast.Name) for e in g.target.elts)):
+                    raise Untranslatable("comprehension target over zip")
+                (a, ta), (b, tb) = self._e(z.args[0]), self._e(z.args[1])
+                if not (_is_list_of(ta) and _is_list_of(tb)):
+                    raise Untranslatable(f"zip of {ta}, {tb}")
+                n1, n2 = (e.id for e in g.target.elts)
+                self.env[n1], self.env[n2] = ta[1], tb[1]
+                body, tbody = self.es(n.elt)
+                return f"(ArrJnp.zipWithStrict (fun {n1} {n2} => {body}) {a} {b})", ("L", tbody)
+            if not isinstance(g.target, ast.Name):
+                raise Untranslatable("comprehension target")
+            it, tit = self._e(g.iter)
+            if not (_is_list_of(tit) and tit[0] == "L"):
+                raise Untranslatable(f"comprehension over {tit}")
+            self.env[g.target.id] = tit[1]
+            body, tbody = self._e(n.elt)
+            if tbody == "num":
+                raise Untranslatable("comprehension of constants")
+            return f"(List.map (fun {g.target.id} => {body}) {it})", ("L", tbody)
+        finally:
+            self.env = saved
+
+    def _nat(self, n):
+        """an expression that is a non-negative int (index / bound into a shape)"""
+        c, t = self._e(n)
+        if t == NAT:
+            return c
+        if t == "num" and isinstance(n, ast.Constant) and isinstance(n.value, int) and n.value >= 0:
+            return c
+        raise Untranslatable(f"index of type {t} into a shape")
+
+    def arr_subscript(self, n, base, bt):
+        sl = n.slice
+        if bt == A:
+            idx, it = self._e(sl)
+            if it != IDX:
+                raise Untranslatable(f"array indexed by {it}")
+            return f"(ArrJnp.getIdx {base} {idx})", A
+        if isinstance(sl, ast.Slice):
+            if sl.step is not None:
+                raise Untranslatable("slice step")
+            if (bt == ("L", SH) and sl.lower is None and isinstance(sl.upper, ast.UnaryOp) and isinstance(sl.upper.op, ast.USub)
+                    and isinstance(sl.upper.operand, ast.Constant) and sl.upper.operand.value == 1):
+                return f"(List.dropLast {base})", bt  # seq[:-1]
+            if bt != SH:
+                raise Untranslatable(f"slice of {bt}")
+            if sl.lower is None and sl.upper is not None:
+                return f"(List.take {self._nat(sl.upper)} {base})", SH
+            if sl.upper is None and sl.lower is not None:
+                return f"(List.drop {self._nat(sl.lower)} {base})", SH
+            raise Untranslatable("slice form on a shape")
+        if bt == ("L", SH):
+            if isinstance(sl, ast.Constant) and sl.value == 0:
+                return f"(ArrJnp.first {base})", SH
+            raise Untranslatable("index into a list of shapes other than [0]")
+        return f"(ArrJnp.shapeGet {base} {self._nat(sl)})", NAT
 
     def _static_int(self, n):
         c, t = self._e(n)
         if t in ("num", I, "Nat"):
             return f"({c} : Int)"
         raise Untranslatable("slice bound not an int")
+
+    def _shape_elt(self, e):
+        """an element of a tuple that is a shape: a non-negative int, or `len(...)`"""
+        if isinstance(e, ast.Call) and ast.unparse(e.func) == "len" and len(e.args) == 1 and not e.keywords:
+            c, t = self._e(e.args[0])
+            if t == V or t == SH or _is_list_of(t):
+                return f"(List.length {c})"
+        return self._nat(e)
 
     def binop(self, n):
         if isinstance(n.op, ast.Pow):
@@ -506,8 +742,28 @@ class Tr:
         sym = {ast.Add: "+", ast.Sub: "-", ast.Mult: "*", ast.Div: "/", ast.FloorDiv: "/", ast.Mod: "%"}.get(type(n.op))
         if sym is None:
             raise Untranslatable(ast.dump(n.op))
+        if isinstance(n.op, ast.Add):
+            sides = []
+            for side in (n.left, n.right):
+                if isinstance(side, ast.Tuple) and side.elts:
+                    sides.append(("[" + ", ".join(self._shape_elt(e) for e in side.elts) + "]", SH))
+                else:
+                    sides.append(None)
+            if any(x is not None for x in sides):
+                (a, ta), (b, tb) = (x if x is not None else self._e(sd) for x, sd in zip(sides, (n.left, n.right)))
+                if ta == SH and tb == SH:
+                    return f"({a} ++ {b})", SH
+                raise Untranslatable(f"tuple concatenation {ta} + {tb}")
         a, ta = self._e(n.left)
         b, tb = self._e(n.right)
+        if ta == SH and tb == SH and isinstance(n.op, ast.Add):
+            return f"({a} ++ {b})", SH
+        if NAT in (ta, tb):
+            if isinstance(n.op, ast.Add) and {ta, tb} <= {NAT, "num"} and all(
+                    t == NAT or (isinstance(sd, ast.Constant) and isinstance(sd.value, int) and sd.value >= 0)
+                    for t, sd in ((ta, n.left), (tb, n.right))):
+                return f"({a} + {b})", NAT
+            raise Untranslatable(f"arithmetic on a non-negative int other than +: {ta} {sym} {tb}")
         if ta == EM and tb in (EMC, EMR) and sym in ("+", "-"):
             # broadcast of a log-domain matrix against a `keepdims=True` reduction of matching orientation
             fn = {("-", EMC): "subCol", ("-", EMR): "subRow", ("+", EMC): "addCol", ("+", EMR): "addRow"}[(sym, tb)]
@@ -547,6 +803,14 @@ class Tr:
                 and isinstance(f.value.value, ast.Attribute) and f.value.value.attr == "at"):
             base, bt = self._e(f.value.value.value)
             idx = f.value.slice
+            if bt == A:
+                # `x.at[idxs].set(v)` on an n-d array with a resolved index
+                if len(n.args) != 1 or n.keywords:
+                    raise Untranslatable(f".at[].set form {fn}")
+                (ic, it), (v, vt) = self._e(idx), self._e(n.args[0])
+                if it != IDX or vt != A:
+                    raise Untranslatable(f"array .at[{it}].set({vt})")
+                return f"(ArrJnp.atSet {base} {ic} {v})", A
             if (bt != V or not (isinstance(idx, ast.Constant) and isinstance(idx.value, int) and not isinstance(idx.value, bool)
                                 and idx.value >= 0) or len(n.args) != 1 or n.keywords):
                 raise Untranslatable(f".at[].set form {fn}")
@@ -576,11 +840,35 @@ class Tr:
             lname, rt, *rest = self.tgt.calls[fn]
             drop = rest[1] if len(rest) > 1 else ()  # positional pass-through arguments the callee ignores (`condition`)
             argc = [self.es(a)[0] for a in n.args if not (isinstance(a, ast.Name) and a.id in drop)]
+            if n.keywords:
+                # keyword arguments are accepted only in the declared order of the callee's remaining parameters
+                kworder = rest[2] if len(rest) > 2 else None
+                if kworder is None or [k.arg for k in n.keywords] != list(kworder):
+                    raise Untranslatable(f"call {fn}: keyword arguments {[k.arg for k in n.keywords]} (expected {kworder})")
+                argc += [self.es(k.value)[0] for k in n.keywords]
             extra = rest[0] if rest else []
             return "(" + " ".join([lname] + extra + argc) + ")", rt
         if (isinstance(n.func, ast.Attribute) and isinstance(n.func.value, ast.Name) and n.func.value.id == "self"
                 and n.func.attr in self.cfg_fns):
             return self.config_fn_call(n, self.cfg_fns[n.func.attr])
+        if fn in ARR_LIB:
+            return ARR_LIB[fn](self, n)
+        if isinstance(n.func, ast.Attribute) and n.func.attr in ("reshape", "squeeze"):
+            try:
+                base, bt = self._e(n.func.value)
+            except Untranslatable:
+                base, bt = None, None
+            if bt == A:
+                if n.func.attr == "reshape":
+                    if len(n.args) != 1 or n.keywords:
+                        raise Untranslatable("reshape form: expected one shape argument")
+                    sh, tsh = self._e(n.args[0])
+                    if tsh == SH:
+                        return f"(ArrJnp.reshape {base} {sh})", A
+                    if tsh == OSH:
+                        return f"(ArrJnp.reshapeOpt {base} {sh})", A
+                    raise Untranslatable(f"reshape to {tsh}")
+                return f"(ArrJnp.squeeze {base} {_arr_axis(self, n, 0)})", A
         if fn in MAT_LIB:
             r = MAT_LIB[fn](self, n)
             if r is not None:
@@ -603,8 +891,10 @@ class Tr:
                 base, bt = self._e(n.func.value)
             except Untranslatable:
                 base, bt = None, None
-            if bt == R("Bij"):
+            if isinstance(bt, tuple) and bt[0] == "R" and bt[1] in BIJ_RECORDS:
                 fld, rt = BIJ_METHODS[n.func.attr]
+                if bt != R("Bij"):
+                    rt = A if rt == "X" else T(A, S)
                 if len(n.args) != 2 or n.keywords:
                     raise Untranslatable(f"child call {fn}: expected (x, condition)")
                 argc = [self.es(a)[0] for a in n.args]
@@ -676,6 +966,8 @@ class Tr:
                 raise Untranslatable("statement after return")
             if isinstance(st, ast.Expr) and isinstance(st.value, ast.Constant):
                 continue  # docstring
+            if (isinstance(st, ast.Expr) and isinstance(st.value, ast.Call) and ast.unparse(st.value.func) in self.tgt.guard_calls):
+                continue  # argument check (raises or returns None): recorded in the typing sheet, not translated
             if isinstance(st, ast.Assign):
                 if len(st.targets) != 1:
                     raise Untranslatable("multi-target assign")
@@ -695,6 +987,20 @@ class Tr:
                 # only `if <static>: raise` guards are accepted, and are recorded not translated
                 if all(isinstance(s, ast.Raise) for s in st.body) and not st.orelse:
                     continue
+                if (isinstance(st.test, ast.Compare) and len(st.test.ops) == 1 and isinstance(st.test.ops[0], (ast.Is, ast.IsNot))
+                        and not st.orelse):
+                    # `if <optional shape> is [not] None: v = e` -> `let v := if … then e else v` (v already bound, same type)
+                    tc, _ = self._e(st.test)
+                    for b in st.body:
+                        if not (isinstance(b, ast.Assign) and len(b.targets) == 1 and isinstance(b.targets[0], ast.Name)
+                                and b.targets[0].id in self.env):
+                            raise Untranslatable("`if … is None`: only re-assignments of bound names are translated")
+                        nm = b.targets[0].id
+                        c, t = self.es(b.value)
+                        if t != self.env[nm]:
+                            raise Untranslatable(f"`if … is None`: {nm} changes type {self.env[nm]} -> {t}")
+                        out.append(f"let {nm} := if {tc} then {c} else {nm}")
+                    continue
                 if isinstance(st.test, ast.Name) and st.test.id in self.tgt.static:
                     for b in (st.body if self.tgt.static[st.test.id] else st.orelse):
                         if not (isinstance(b, ast.Assign) and len(b.targets) == 1):
@@ -705,7 +1011,15 @@ class Tr:
             if isinstance(st, (ast.FunctionDef, ast.ClassDef)):
                 continue  # nested definitions are separate targets
             if isinstance(st, ast.Return):
-                c, t = self.es(st.value)
+                want_gen = isinstance(self.tgt.ret, tuple) and self.tgt.ret[0] == "G"
+                if isinstance(st.value, ast.GeneratorExp) != want_gen:
+                    raise Untranslatable("generator returned / expected, but not both")
+                if want_gen:
+                    c, t = self._e(st.value, gen_ok=True)
+                    if t != ("L", self.tgt.ret[1]):
+                        raise Untranslatable(f"generator of {t}")
+                else:
+                    c, t = self.es(st.value)
                 ret = c
                 continue
             if isinstance(st, ast.AugAssign) and isinstance(st.target, ast.Name) and isinstance(st.op, ast.Add):
@@ -778,8 +1092,26 @@ class Tr:
         return [f"let {pat} := List.foldl {fun} {pat} {ic}"]
 
     def assign(self, tgt, val) -> list[str]:
+        if isinstance(tgt, ast.Name) and tgt.id in self.tgt.tuple_types and isinstance(val, ast.Tuple):
+            tys = self.tgt.tuple_types[tgt.id]
+            if len(tys) != len(val.elts):
+                raise Untranslatable(f"tuple {tgt.id}: {len(val.elts)} elements, declared {len(tys)}")
+            parts = []
+            for el, ty in zip(val.elts, tys):
+                c, t = self._e(el)
+                if t == "num":
+                    c, t = (f"({c} : Int)", I) if ty == I else (f"({c} : α)", S)
+                if t != ty:
+                    raise Untranslatable(f"tuple {tgt.id}: element of type {t}, declared {ty}")
+                parts.append(c)
+            self.env[tgt.id] = T(*tys)
+            return [f"let {tgt.id} := (" + ", ".join(parts) + ")"]
         if isinstance(tgt, ast.Name):
             c, t = self.es(val)
+            if isinstance(t, tuple) and t[0] == "G":
+                uses = sum(1 for x in ast.walk(self.fn_node) if isinstance(x, ast.Name) and x.id == tgt.id and isinstance(x.ctx, ast.Load))
+                if uses != 1:
+                    raise Untranslatable(f"generator {tgt.id} is consumed {uses} times")
             self.env[tgt.id] = t
             ann = ""
             if tgt.id in self.tgt.lets_types:
@@ -912,6 +1244,7 @@ def translate_target(repo, tgt: Target, structs) -> tuple[str, Tr]:
     tree = ast.parse(src)
     fn = find_def(tree, tgt.path)
     tr = Tr(tgt, structs)
+    tr.fn_node = fn
     tr.cfg_fns = resolve_config(tree, tgt)
     pyargs = [a.arg for a in fn.args.args + fn.args.kwonlyargs]
     for flag, val in tgt.static.items():
@@ -974,7 +1307,7 @@ def translate_target(repo, tgt: Target, structs) -> tuple[str, Tr]:
     for k, v in tgt.pre_env.items():
         tr.env[k] = v
     body = tr.body(stmts)
-    ret = tgt.init_of + " α" if tgt.init_of else lean_type(tgt.ret)
+    ret = (RECORD_TYPES.get(tgt.init_of, tgt.init_of + " α")) if tgt.init_of else lean_type(tgt.ret)
     doc = f"/-- generated from `{tgt.file}` :: `{tgt.path}` -/\n"
     code = f"{doc}def {tgt.name} {' '.join(params)} : {ret} :=\n  {body}\n"
     return code, tr
